@@ -156,13 +156,17 @@ PROPS = {
         nontrivial=lambda p: bool(prog_kinds(p) & {"orig", "sms"}),
     ),
     "C12": dict(
-        gens=[tlc("c12"), tlc("c12vlq", "thorough"), rand("codec", 2000, "quick"), rand("codec", 100000, "thorough"), rand("decoder_junk", 300, "quick"), rand("decoder_junk", 20000, "thorough")],
+        gens=[tlc("c12"), tlc("c12wide"), tlc("c12vlq", "thorough"), rand("codec", 2000, "quick"), rand("codec", 100000, "thorough"), rand("decoder_junk", 300, "quick"), rand("decoder_junk", 20000, "thorough")],
         tv_props=["C12", "DRIFT"],
         mc=[dict(module="MC_EncM.tla", cfg="MC_EncM"), dict(module="MC_DecM.tla", cfg="MC_DecM", tier="quick"),
-            dict(module="MC_DecM.tla", cfg="MC_DecM_deep", tier="thorough", timeout=1800)],
-        must_fire=["C12.decode_matches_format", "C12.roundtrip_resolves_same", "C12.kept_is_subsequence",
+            dict(module="MC_DecM.tla", cfg="MC_DecM_deep", tier="thorough", timeout=1800),
+            dict(module="MC_VlqW.tla", cfg="MC_VlqW"),
+            dict(module="MC_VlqW.tla", cfg="MC_VlqW_narrow", expect="RoundTrip")],
+        must_fire=["C12.wide_decodes_to_input", "C12.wide_roundtrip", "C12.wide_reencode_stable",
+                   "C12.wide_lines_only_first_mapped", "C12.decode_matches_format", "C12.roundtrip_resolves_same", "C12.kept_is_subsequence",
                    "C12.reencode_stable", "C12.decoder_matches_format", "C12.lines_only_first_mapped", "C12.vlq_digits"],
-        rule="sorted mapping sequences (small exhaustive domain, big values per field, random), grammar strings with redundant "
+        rule="sorted mapping sequences (small exhaustive domain, big values per field, the corners of the whole u32 range "
+             "through the wide format VlqW, random), grammar strings with redundant "
              "continuation digits / empty segments / backward columns, exhaustive single-field deltas (|d| < 2^10 quick, < 2^20 "
              "thorough); non-trivial = at least two segments or a grammar string",
         nontrivial=lambda p: any(len(s.get("segs", [])) >= 2 or s["op"] in ("decode", "vlq_batch") for s in p.get("steps", [])),
@@ -234,7 +238,7 @@ PROPS = {
     "C15": dict(
         gens=[tlc("c15"), rand("json_maps", 500, "quick"), rand("json_maps", 30000, "thorough")],
         tv_props=["C15"],
-        must_fire=["C15.serialises", "C15.writer_equals_json", "C15.document_matches_value", "C15.round_trip",
+        must_fire=["C15.serialises", "C15.writer_equals_json", "C15.writer_short_writes", "C15.document_matches_value", "C15.round_trip",
                    "C15.entry_points_agree", "C15.document_reads_as_value"],
         rule="SourceMap values whose strings contain quotes, backslashes, control characters, U+2028/2029 and astral characters, optional "
              "fields present/absent; hand-built documents with null entries, missing arrays, reordered and unknown keys; non-trivial = "
